@@ -40,7 +40,7 @@ impl Report {
             samples: vec![],
             violations: vec![],
             harness_errors: vec![],
-            max_violations: 40,
+            max_violations: 200,
         }
     }
     pub fn to_json(&self) -> J {
@@ -97,7 +97,10 @@ impl<'a> CaseCtx<'a> {
         if self.verbose {
             eprintln!("VIOLATION[{}] case {}: {} :: {}", signature, self.idx, what, detail);
         }
-        if self.rep.violations.len() < self.rep.max_violations {
+        // keep a few witnesses per signature (so one noisy class cannot hide the others), count the rest
+        let n = self.rep.counters.entry(format!("violation:{signature}")).or_insert(0);
+        *n += 1;
+        if *n <= 3 && self.rep.violations.len() < self.rep.max_violations {
             self.rep.violations.push(Violation { signature: signature.to_string(), what, case: self.idx, detail });
         } else {
             *self.rep.counters.entry("violations_not_recorded".into()).or_insert(0) += 1;
